@@ -38,6 +38,9 @@ type PlaylistDef struct {
 	Tracks    []TrackDef `json:"tracks"`
 	Segs      []SegShape `json:"segs"`
 	ByteRange bool       `json:"byte_range"` // all segments (and the init) in one resource, addressed with byte ranges
+	// RangeDrop: bit (segment index % 16) set = the sub-range of that segment is written without
+	// its offset when it is not the first one listed (it then continues after the previous one)
+	RangeDrop int `json:"range_drop,omitempty"`
 	Name      string     `json:"name,omitempty"`
 	Language  string     `json:"language,omitempty"`
 	Default   bool       `json:"default,omitempty"`
@@ -93,6 +96,14 @@ type Built struct {
 func isVideoCodec(c string) bool {
 	switch c {
 	case "h264", "h265", "av1", "vp9":
+		return true
+	}
+	return false
+}
+
+func isTSVideo(c string) bool {
+	switch c {
+	case "h264", "tsh265", "tsmp4v", "tsmp1v":
 		return true
 	}
 	return false
@@ -196,6 +207,26 @@ func samplePayload(container string, t TrackDef, id int, sync bool) (payload []b
 	case "opus":
 		pkt := mux.OpusPacket(3, 1, m)
 		return pkt, [][]byte{pkt}
+	case "tsh265", "tsmp4v", "tsmp1v":
+		// video of a codec the client has no type for. Its first unit in every segment is a random
+		// access unit: the MPEG-TS writer repeats PAT/PMT there when this track carries the PCR,
+		// which a well-formed HLS segment needs
+		var f []byte
+		switch {
+		case t.Codec == "tsh265" && sync:
+			f = append([]byte{0x26, 0x01}, m...)
+		case t.Codec == "tsh265":
+			f = append([]byte{0x02, 0x01}, m...)
+		case t.Codec == "tsmp4v" && sync:
+			f = append([]byte{0, 0, 1, 0xb3, 0, 0, 1, 0xb6}, m...)
+		case t.Codec == "tsmp4v":
+			f = append([]byte{0, 0, 1, 0xb6}, m...)
+		case sync:
+			f = append([]byte{0, 0, 1, 0xb8, 0, 0, 1, 0x00}, m...)
+		default:
+			f = append([]byte{0, 0, 1, 0x00}, m...)
+		}
+		return f, [][]byte{f}
 	case "tsac3":
 		// a well-formed AC-3 sync frame: 48 kHz, frmsizecod 0 (128 bytes), bsid 8, 2/0 channels
 		f := make([]byte, 128)
@@ -323,7 +354,7 @@ func buildPlaylist(def PlaylistDef, container, name string, base func(timescale 
 				}
 				for n := 0; n < total; n++ {
 					id := idBase + ti*100000 + count[ti]
-					sync := t.Codec != "h264" || n == 0
+					sync := !isTSVideo(t.Codec) || n == 0
 					_, data := samplePayload(container, t, id, sync)
 					off := 0
 					if len(t.PTSOffs) > 0 {
@@ -506,7 +537,11 @@ func MediaPlaylistText(bp *BuiltPlaylist, container string, seq int, from, to in
 		}
 		fmt.Fprintf(&s, "#EXTINF:%.5f,\n", d)
 		if bp.Def.ByteRange {
-			fmt.Fprintf(&s, "#EXT-X-BYTERANGE:%d@%d\n", bp.SegRanges[i][1], bp.SegRanges[i][0])
+			if i > from && bp.Def.RangeDrop&(1<<(i%16)) != 0 {
+				fmt.Fprintf(&s, "#EXT-X-BYTERANGE:%d\n", bp.SegRanges[i][1])
+			} else {
+				fmt.Fprintf(&s, "#EXT-X-BYTERANGE:%d@%d\n", bp.SegRanges[i][1], bp.SegRanges[i][0])
+			}
 		}
 		s.WriteString(bp.SegURIs[i] + "\n")
 	}
